@@ -110,7 +110,7 @@ Theorem lockset_refuted_pool_enabled :
     common_lock a b = false /\ ordered_by_channel a b = false /\ listed_exception a b = false.
 Proof. apply witness_sound. vm_compute. discriminate. Qed.
 
-(* F23: the watcher goroutine reads dbConfig.Path without reloadMu while Reload writes it *)
+(* F29: the watcher goroutine reads dbConfig.Path without reloadMu while Reload writes it *)
 Theorem lockset_refuted_dbconfig_path :
   exists a b, In a accesses /\ In b accesses /\
     a_owner a = "dnsserver.FBDNSDB" /\ a_field a = "dbConfig.Path" /\
